@@ -324,7 +324,7 @@ def cases(tier='quick', families=None):
             out.append(Case('S6', 'tagchoice%d' % n, 'IMPLICIT', Type('CHOICE', root=[
                 Member('a', tagged(Type('INTEGER'), (2, n, None))), Member('b', tagged(Type('BOOLEAN'), (1, n, None))),
                 Member('c', tagged(Type('NULL'), (3, n, None)))])))
-        ks = [1, 7, 8, 15, 16, 31, 32, 63, 64] if tier == 'quick' else list(range(1, 65))
+        ks = [1, 7, 8, 15, 16, 24, 25, 31, 32, 63, 64] if tier == 'quick' else list(range(1, 65))
         for k in ks:
             for ub in ((1 << k) - 2, (1 << k) - 1, 1 << k):
                 if ub < 1 or ub > (1 << 64) - 1:
